@@ -71,6 +71,16 @@ if [ "${1:-}" = "replay" ]; then
         echo "VIOLATION property=C16 replay=$f"; exit 1
       done
       echo "optchk: $c"; echo "replay $f: listings agree in 12 attempts"; exit 0;;
+    asesim-c16-cell-diff)
+      build optchk unopt rel || exit 2
+      k="$(python3 -c 'import json,sys; print(json.load(open(sys.argv[1]))["base"])' "$f")"
+      j="$(python3 -c 'import json,sys; print(json.load(open(sys.argv[1]))["cell"])' "$f")"
+      a="$("$(exe unopt)" c16-digest --seed "$SEED" --cells-base "$k" 2>/dev/null | grep "^$k:$j ")"
+      b="$("$(exe rel)" c16-digest --seed "$SEED" --cells-base "$k" 2>/dev/null | grep "^$k:$j ")"
+      c="$("$(exe optchk)" c16-digest --seed "$SEED" --cells-base "$k" 2>/dev/null | grep "^$k:$j ")"
+      echo "unopt : $a"; echo "rel   : $b"; echo "optchk: $c"
+      if [ "$a" = "$b" ] && [ "$b" = "$c" ]; then echo "replay $f: listings agree"; exit 0; fi
+      echo "VIOLATION property=C16 replay=$f"; exit 1;;
     asesim-c16-stress)
       build optchk || exit 2
       run="$(python3 -c 'import json,sys; print(json.load(open(sys.argv[1]))["run"])' "$f")"
@@ -192,6 +202,36 @@ elif echo "$DIFF_RESULT" | grep -q '"missing": \[\]'; then :; else
   echo "HARNESS-ERROR: digest listings incomplete: $DIFF_RESULT" >&2; HARN=1
 fi
 
+# ---- 4b. configurations over a systematic space: every (field, boundary value) cell ----------
+if [ "$TIER" = "thorough" ]; then NCB=76; else NCB=20; fi
+CELLS_RESULT="clean"; CELLS_N=0
+for prof in unopt rel optchk; do
+  rm -f "$D/cells-$prof".*.txt
+  seq 0 $((NCB-1)) | xargs -P "$WORKERS" -I{} sh -c "\"$(exe $prof)\" c16-digest --seed $SEED --cells-base {} > \"$D/cells-$prof.{}.txt\" 2>/dev/null"
+  for k in $(seq 0 $((NCB-1))); do cat "$D/cells-$prof.$k.txt"; done > "$D/cells-$prof.txt"
+  rm -f "$D/cells-$prof".[0-9]*.txt
+done
+CELLS_N=$(wc -l < "$D/cells-optchk.txt")
+if ! cmp -s "$D/cells-unopt.txt" "$D/cells-rel.txt" || ! cmp -s "$D/cells-rel.txt" "$D/cells-optchk.txt"; then
+  CELLS_RESULT="violated"
+  first="$(paste -d'|' "$D/cells-unopt.txt" "$D/cells-rel.txt" "$D/cells-optchk.txt" | awk -F'|' '$1!=$2 || $2!=$3 {print; exit}')"
+  cell="$(echo "$first" | cut -d' ' -f1)"
+  R="$OUT/replays/C16-s$SEED-cell-diff-${cell/:/-}.json"
+  python3 - "$R" "$SEED" "$cell" "$first" <<'EOF2'
+import json,sys
+k,j=sys.argv[3].split(":")
+u,r,o=(sys.argv[4].split("|")+["","",""])[:3]
+json.dump({"format":"asesim-c16-cell-diff","property":"C16","seed":int(sys.argv[2]),"base":int(k),"cell":int(j),
+ "listings":{"unopt":u,"rel":r,"optchk":o},
+ "expected":{"kind":"nondeterministic","signature":"C16|nondeterministic|profile-diff||observations differ between build profiles / processes"}},open(sys.argv[1],"w"),indent=1)
+EOF2
+  echo "  unopt : $(echo "$first" | cut -d'|' -f1)"; echo "  rel   : $(echo "$first" | cut -d'|' -f2)"; echo "  optchk: $(echo "$first" | cut -d'|' -f3)"
+  echo "VIOLATION property=C16 replay=$R"
+  echo "  kind=nondeterministic: a single-field boundary value gives different observations in different build profiles (wrapping arithmetic)"
+  VIOL=1
+fi
+[ "$CELLS_N" -gt 0 ] || { echo "HARNESS-ERROR: cell walk produced no lines" >&2; HARN=1; }
+
 # ---- 3c. free-running native threads (complement; sound oracle, schedule chosen by the OS) -----
 if [ "$TIER" = "thorough" ]; then SRUNS=8000; SITERS=600; else SRUNS=640; SITERS=400; fi
 STRESS_RESULT="clean"
@@ -262,9 +302,9 @@ done
 
 # ---- evidence: add the three side obligations to what asesim wrote ----------------------------
 T1=$(date +%s.%N)
-python3 - "$OUT/evidence/C16.json" "$TYPE_RESULT" "$DIFF_RESULT" "$MIRI_RESULT" "$MIRI_RUNS" "$MSEEDS" "$MCASES" "$RATES" "$VIOL" "$T0" "$T1" "$TIER" "$SEED" "$STRESS_RESULT" "$SRUNS" "$SITERS" <<'EOF'
+python3 - "$OUT/evidence/C16.json" "$TYPE_RESULT" "$DIFF_RESULT" "$MIRI_RESULT" "$MIRI_RUNS" "$MSEEDS" "$MCASES" "$RATES" "$VIOL" "$T0" "$T1" "$TIER" "$SEED" "$STRESS_RESULT" "$SRUNS" "$SITERS" "$CELLS_RESULT" "$CELLS_N" "$NCB" <<'EOF'
 import json,sys
-p,typ,diff,miri,mruns,mseeds,mcases,rates,viol,t0,t1,tier,seed,stress,sruns,siters=sys.argv[1:]
+p,typ,diff,miri,mruns,mseeds,mcases,rates,viol,t0,t1,tier,seed,stress,sruns,siters,cells,cellsn,ncb=sys.argv[1:]
 try:
     e=json.load(open(p))
 except Exception:
@@ -272,6 +312,7 @@ except Exception:
 d=json.loads(diff)
 e["coverage"]["extra"]={
   "1_type_send_sync":{"result":typ,"how":"cargo check of /verif/typecheck (assert_send_sync::<AsepriteFile and all borrowed views>)"},
+  "4b_configurations_cell_walk":{"result":cells,"cells_compared":int(cellsn),"bases":int(ncb),"profiles":["unopt","rel","optchk"],"what":"every (integer field, boundary value) cell of each base file; one digest line per cell per profile"},
   "3c_native_stress":{"result":stress,"runs":int(sruns),"threads":6,"iterations_per_thread":int(siters),"note":"free-running OS threads; sound oracle, OS-chosen interleavings (complement to the deterministic stages)"},
   "3b_miri":{"result":miri,"program_runs":int(mruns),"miri_seeds":int(mseeds),"cases_per_seed":int(mcases),"preemption_rates":rates.split(),
              "what":"2..3 free-running threads over &AsepriteFile on tiny sprites; Miri's seeded scheduler preempts inside accessors; data races / UB / result != sequential memo fail the run"},
@@ -279,12 +320,12 @@ e["coverage"]["extra"]={
              "runs_compared":d.get("runs"),"mismatches":d.get("mismatches"),"distinct_digests":d.get("distinct_digests"),"outcome_classes":d.get("classes"),
              "runs_with_accessor_panics":d.get("runs_with_accessor_panics")},
 }
-e["coverage"]["evaluations"]=int(e["coverage"].get("evaluations",0))+int(d.get("runs") or 0)*4+int(mruns)+int(sruns)
+e["coverage"]["evaluations"]=int(e["coverage"].get("evaluations",0))+int(d.get("runs") or 0)*4+int(mruns)+int(sruns)+3*int(cellsn)
 e["violations"]=max(int(e.get("violations",0)),int(viol))
 e["wall_s"]=round(float(t1)-float(t0),1)
 json.dump(e,open(p,"w"),indent=1)
 EOF
-echo "[C16] type=$TYPE_RESULT stress=$STRESS_RESULT miri=$MIRI_RESULT ($MIRI_RUNS program runs) profile-diff: $(echo "$DIFF_RESULT" | cut -c1-160)"
+echo "[C16] type=$TYPE_RESULT cells=$CELLS_RESULT($CELLS_N) stress=$STRESS_RESULT miri=$MIRI_RESULT ($MIRI_RUNS program runs) profile-diff: $(echo "$DIFF_RESULT" | cut -c1-160)"
 [ $VIOL -ne 0 ] && exit 1
 [ $HARN -ne 0 ] && exit 2
 exit 0
